@@ -15,7 +15,7 @@ EXPLANATION = ("Every public constructor/setter of Rotation_<double> is executed
                "the produced matrix equals the product of elementary rotations in the documented order (body: left to right, space: right to left) resp. Rodrigues' formula; "
                "R(convert(R)) = R for convertOneAxisRotationToOneAngle, convertTwoAxesRotationToTwoAngles (9 pairs x body/space), convertThreeAxesRotationToThreeAngles (27 triples x body/space, "
                "plus the gimbal-lock branches with the middle angle exactly singular), convertRotationToQuaternion (all four Spurrier branches are reached) and convertRotationToAngleAxis; "
-               "returned quaternions have unit norm, returned axes unit length, the angle lies in [-pi,pi]; composition/inversion/re-expression of Rotation, InverseRotation, Transform, InverseTransform "
+               "returned quaternions have unit norm, returned axes unit length, the angle lies in [-pi,pi] (inequality; asserted on the one-axis instances, where the path condition is small); composition/inversion/re-expression of Rotation, InverseRotation, Transform, InverseTransform "
                "agree with 3x3 / 4x4 matrix algebra; quaternion product maps to rotation product. Every equality goal is brought to polynomial normal form by exact spec-side algebra "
                "before it is sent to the solver: the (S,C) pair of an atan2 result is eliminated (multiply by r^d, r = sqrt(x^2+y^2) > 0), a square-root variable r with r^2 = p^2 is replaced by +-p when "
                "the executed path contains the sign literal of p (or by a rational when its radicand is a perfect-square constant, possibly after clearing inverses: the premise is an obligation of "
@@ -24,7 +24,7 @@ EXPLANATION = ("Every public constructor/setter of Rotation_<double> is executed
                "path condition.")
 BOUNDS = ("all inputs of an instance simultaneously free (free set ALL: every angle, vector and quaternion component is a solver variable) except: gimbal-lock instances (middle angle pinned at "
           "exactly +-pi/2 resp. 0, other two free) and the quaternion-product instance (one quaternion free, the other pinned at an exactly unit rational point, both ways); paths per instance explored "
-          "by flipping decisions up to the budget (quick 8 / thorough 40); the quaternion/angle-axis round trips of a general rotation run at 7 chosen base points that execute the four Spurrier "
+          "by flipping decisions up to the budget (quick 2-6 / thorough 6-40 paths per instance); the quaternion/angle-axis round trips of a general rotation run at 7 chosen base points that execute the four Spurrier "
           "branches with both canonicalisation signs, all three angles free on each; double precision")
 NOT_COVERED = ("float instantiations; angles -> R -> angles (uniqueness inside the principal domain; only R(convert(R)) = R is proved); setRotationFromApproximateMat33 on a non-orthogonal matrix "
                "(only exact rotations are fed: then it must return the same rotation); the approximately singular neighbourhood |cos| <= 4 eps of the Euler conversions (only the exactly singular "
@@ -45,30 +45,32 @@ def adjust_seeds(inst, seeds, angle_pins, rng, g):
 
 def instances(tier, seed):
     out = []
-    np_ = 8 if tier == "quick" else 40
+    q = tier == "quick"
+    np_ = 6 if q else 40
+    fl = dict(flip_timeout_ms=1500, flips_per_path=8) if q else dict(flip_timeout_ms=10000, flips_per_path=16)
     for a in AX:
-        out.append(dict(name="one:%s" % a, args=["one", a], paths=np_, base_points=1))
+        out.append(dict(name="one:%s" % a, args=["one", a], paths=4 if q else 16, base_points=1, **fl))
     for t in "BS":
         for i, j in itertools.product(AX, AX):
-            out.append(dict(name="two:%s:%s%s" % (t, i, j), args=["two", t, i, j], paths=6 if tier == "quick" else 16, base_points=1))
+            out.append(dict(name="two:%s:%s%s" % (t, i, j), args=["two", t, i, j], paths=4 if q else 16, base_points=1, **fl))
         for n, (i, j, k) in enumerate(itertools.product(AX, AX, AX)):
-            out.append(dict(name="three:%s:%s%s%s" % (t, i, j, k), args=["three", t, i, j, k], paths=3 if tier == "quick" else 6, base_points=1))
+            out.append(dict(name="three:%s:%s%s%s" % (t, i, j, k), args=["three", t, i, j, k], paths=2 if q else 6, base_points=1, **fl))
             if j != i and j != k:
-                for sg in ("+", "-") if i != k else ("+",):
+                for sg in ("+", "-") if (i != k and not q) else ("+",):
                     out.append(dict(name="lock:%s:%s%s%s%s" % (t, i, j, k, sg), args=["lock", t, i, j, k, sg], paths=1, base_points=1))
     # quaternion / angle-axis round trips of a general rotation (all three angles free). The base points are chosen (adjust_seeds) so that the executed paths
     # are the four Spurrier branches with both signs of the canonicalisation; no flipping (every query carries the path condition and flips are slow here)
     out.append(dict(name="rt:B:XYZ", args=["three", "B", "X", "Y", "Z", "rt"], paths=1, base_points=len(RT_SEEDS)))
-    if tier == "thorough":
+    if not q:
         out.append(dict(name="rt:S:ZXZ", args=["three", "S", "Z", "X", "Z", "rt"], paths=1, base_points=len(RT_SEEDS)))
-    out.append(dict(name="angleaxis", args=["angleaxis"], paths=np_, base_points=1, flip_timeout_ms=1500, flips_per_path=8))
-    out.append(dict(name="quat", args=["quat"], paths=np_, base_points=1, flip_timeout_ms=1500, flips_per_path=8))
+    out.append(dict(name="angleaxis", args=["angleaxis"], paths=np_, base_points=1, **fl))
+    out.append(dict(name="quat", args=["quat"], paths=np_, base_points=1, **fl))
     for a in AX:
-        out.append(dict(name="oneaxis:%s" % a, args=["oneaxis", a], paths=np_, base_points=1))
+        out.append(dict(name="oneaxis:%s" % a, args=["oneaxis", a], paths=np_, base_points=1, **fl))
     for i, j in itertools.product(AX, AX):
-        out.append(dict(name="twoaxes:%s%s" % (i, j), args=["twoaxes", i, j], paths=8, base_points=1))
+        out.append(dict(name="twoaxes:%s%s" % (i, j), args=["twoaxes", i, j], paths=4 if q else 12, base_points=1, **fl))
     out.append(dict(name="algebra", args=["algebra"], base_points=1))
-    out.append(dict(name="unitvec", args=["unitvec"], paths=np_, base_points=1))
+    out.append(dict(name="unitvec", args=["unitvec"], paths=np_, base_points=1, **fl))
     return out
 
 
@@ -159,7 +161,7 @@ def sc(L, n):
     return L.out("sin_" + n), L.out("cos_" + n)
 
 
-def round_trip_obs(C, L, obs, R, rng=True):
+def round_trip_obs(C, L, obs, R, rng=False):
     """obligations for the outputs of roundTrips(R) in the harness"""
     enc = L.enc
     cq = L.vec("cq", 4)
@@ -208,7 +210,7 @@ def obligations(enc, inst, tr):
             C.E(what + " = elementary rotation matrix", flat(L.mat(nm, 3, 3), Rref))
         C.proper("Rotation(angle, axis)", R)
         C.E("Rotation(convertOneAxisRotationToOneAngle(R)) = R", flat(L.mat("Rrt", 3, 3), R))
-        round_trip_obs(C, L, obs, R)
+        round_trip_obs(C, L, obs, R, rng=True)
     elif mode == "two":
         body = args[1] == "B"
         i, j = AX.index(args[2]), AX.index(args[3])
